@@ -80,6 +80,9 @@ struct Model {
     std::vector<uintptr_t> dead_ids;
 };
 static Model M;
+// pre-flight: how many handler invocations each API call of the history raises when its thread runs alone with no
+// registration made ([task][op index in the history]; -1 = not an API call / not measured)
+static std::vector<std::vector<int>> g_pre_inv;
 
 static void model_reset(size_t ntasks, bool tier2) {
     M = Model();
@@ -374,6 +377,14 @@ static void c13_exec(Task &t, const Op &op, OpResult &r) {
                 M.dispatches++;
                 M.api_dispatches++;
                 if (f.regs_before >= 2) M.nontrivial_dispatch++;
+            } else if (k >= 0 && me < (int)g_pre_inv.size() && t.cur_op < (int)g_pre_inv[me].size() && g_pre_inv[me][t.cur_op] > 0) {
+                // alone, with nothing registered, this very call reports through the dispatcher; here nothing
+                // observable ran: only the library's real ignore_handler_s is invisible to the harness
+                VSet exp = expected_handlers(me, k, f.gadm);
+                if (!(exp & bit(V_IGN)))
+                    violation(t, "no-handler", std::string("a ") + (k ? "mem" : "str") + " report of " + g_fn[op.fn].name + " on task " + std::to_string(me) +
+                                                   " invoked no observable handler (alone and with nothing registered the call invokes the default handler); admissible: " + set_str(exp));
+                else collapse(me, k, f.gadm, V_IGN);
             }
         }
         break;
@@ -397,12 +408,12 @@ static int api_kind(int fn) {
     }
     switch (g_fn[fn].fam) {
     case FAM_INPLACE: case FAM_COPY: case FAM_NCOPY: case FAM_FILL: case FAM_CMP: case FAM_SEARCH: case FAM_CONV: case FAM_FMT: case FAM_WFMT:
-    case FAM_TOK: case FAM_TIME: case FAM_UNI: case FAM_SORT:
+    case FAM_TOK: case FAM_TIME: case FAM_UNI: case FAM_SORT: case FAM_FILE:
         return 0;
-    default: return -1; // stream and file functions are not used in histories
+    default: return -1; // stream functions are not used in histories
     }
 }
-static const int g_api_fams[] = {FAM_INPLACE, FAM_COPY, FAM_NCOPY, FAM_FILL, FAM_CMP, FAM_SEARCH, FAM_CONV, FAM_FMT, FAM_WFMT, FAM_TOK, FAM_TIME, FAM_UNI, FAM_SORT};
+static const int g_api_fams[] = {FAM_INPLACE, FAM_COPY, FAM_NCOPY, FAM_FILL, FAM_CMP, FAM_SEARCH, FAM_CONV, FAM_FMT, FAM_WFMT, FAM_TOK, FAM_TIME, FAM_UNI, FAM_SORT, FAM_FILE};
 
 // ------------------------------------------------------------------ generation
 static void gen_history(Rng &r, Plan &plan) {
@@ -564,6 +575,42 @@ struct RunOut {
     uint64_t loghash = 0;
     Schedule rec;
 };
+// pre-flight: the API calls of a history, each thread's alone and with no registration made. A crash here is a
+// defect of that function on that input (some other property's business), not of the dispatch rule. What is kept is
+// the number of handler invocations each call raises (g_pre_inv): a call that reports through the dispatcher alone
+// must not stay silent in the history unless the library's own (invisible) ignore_handler_s is an admissible handler.
+static void c13_preflight(const Plan &plan) {
+    Plan pre;
+    pre.locale = plan.locale;
+    bool any = false;
+    g_pre_inv.assign(plan.tasks.size(), {});
+    for (size_t t = 0; t < plan.tasks.size(); t++) g_pre_inv[t].assign(plan.tasks[t].ops.size(), -1);
+    for (auto &tp : plan.tasks) {
+        TaskPlan q;
+        q.arena_seed = tp.arena_seed;
+        for (auto &op : tp.ops)
+            if (op.fn < FN_COUNT) { q.ops.push_back(op); any = true; }
+        pre.tasks.push_back(q);
+    }
+    if (!any) return;
+    g_handler_hook = nullptr;
+    g_handler_after = nullptr;
+    for (size_t t = 0; t < pre.tasks.size(); t++) {
+        if (pre.tasks[t].ops.empty()) continue;
+        Schedule empty;
+        empty.start = (int)t;
+        ReplayStrategy rs0(empty, (int)pre.tasks.size());
+        PassResult pr0;
+        run_pass(pre, api_cfg(PASS_SOLO, (int)t, false), rs0, pr0);
+        size_t q = 0;
+        for (size_t o = 0; o < plan.tasks[t].ops.size(); o++)
+            if (plan.tasks[t].ops[o].fn < FN_COUNT) {
+                if (q < pr0.res[t].size() && pr0.res[t][q].done) g_pre_inv[t][o] = (int)pr0.res[t][q].hcalls.size();
+                q++;
+            }
+    }
+}
+
 static void run_history(const Plan &plan, Strategy &st, bool tier2, RunOut &out) {
     PassCfg cfg = c13_cfg();
     size_t n = plan.tasks.size();
@@ -581,6 +628,7 @@ static void run_history(const Plan &plan, Strategy &st, bool tier2, RunOut &out)
 }
 static bool fails_same(const Plan &plan, const Schedule &s, bool tier2, const std::string &cls, RunOut *o = nullptr) {
     if (plan.tasks.empty()) return false;
+    c13_preflight(plan);
     ReplayStrategy st(s, (int)plan.tasks.size());
     RunOut ro;
     run_history(plan, st, tier2, ro);
@@ -751,36 +799,11 @@ int c13_batch(const Args &a) {
         g_cur_seed = a.seed;
         g_cur_run = i;
         g_cur_tier2 = tier2;
-        // pre-flight: the generated API calls of this history, each thread's alone and with no registration made.
-        // A crash here is a defect of that function on that input (some other property's business), not of the
-        // dispatch rule; the driver ignores deaths in this phase, like solo crashes of C12.
-        {
-            Plan pre;
-            pre.locale = plan.locale;
-            bool any = false;
-            for (auto &tp : plan.tasks) {
-                TaskPlan q;
-                q.arena_seed = tp.arena_seed;
-                for (auto &op : tp.ops)
-                    if (op.fn < FN_COUNT) { q.ops.push_back(op); any = true; }
-                pre.tasks.push_back(q);
-            }
-            if (any) {
-                printf("BEGIN %llu preflight\n", (unsigned long long)i);
-                g_cur_plan = nullptr;
-                g_handler_hook = nullptr;
-                g_handler_after = nullptr;
-                for (size_t t = 0; t < pre.tasks.size(); t++) {
-                    if (pre.tasks[t].ops.empty()) continue;
-                    Schedule empty;
-                    empty.start = (int)t;
-                    ReplayStrategy rs0(empty, (int)pre.tasks.size());
-                    PassResult pr0;
-                    run_pass(pre, api_cfg(PASS_SOLO, (int)t, false), rs0, pr0);
-                }
-                g_cur_plan = &plan;
-            }
-        }
+        // pre-flight (see c13_preflight); a death in it is ignored by the driver like a solo crash of C12
+        printf("BEGIN %llu preflight\n", (unsigned long long)i);
+        g_cur_plan = nullptr;
+        c13_preflight(plan);
+        g_cur_plan = &plan;
         printf("BEGIN %llu history\n", (unsigned long long)i);
         Strategy *strat;
         uint64_t est = 2000;
